@@ -321,7 +321,7 @@ pub fn is_rowids_panic(e: &str) -> bool {
     e.contains("lance-table/src/rowids.rs") && (e.contains("Option::unwrap()") || e.contains("Selection is not sorted"))
 }
 
-fn index_types_for(ty: &ColTy) -> Vec<Ix> {
+pub fn index_types_for(ty: &ColTy) -> Vec<Ix> {
     match ty {
         ColTy::ListI32 => vec![Ix::LabelList],
         _ => vec![Ix::BTree, Ix::BTree, Ix::Bitmap],
